@@ -109,11 +109,12 @@ func Supervise(spec Spec, tier string) int {
 
 	self, _ := os.Executable()
 	type wres struct {
-		res        *Result
-		death      string
-		deathGroup string
-		deathIndex int64
-		deathHang  bool
+		res         *Result
+		death       string
+		deathGroup  string
+		deathIndex  int64
+		deathHang   bool
+		deathMemory bool
 	}
 	results := make([]wres, n)
 	var wg sync.WaitGroup
@@ -160,12 +161,23 @@ func Supervise(spec Spec, tier string) int {
 				tail = tail[:1500] + "\n...\n" + tail[len(tail)-1500:]
 			}
 			results[i].death = fmt.Sprintf("worker %d died (%v) at case index %d (group hash %s)\n%s", i, err, idx, gh, tail)
+			// stopped for memory (own cap, or the system's out-of-memory killer): an answer of the environment, not a
+			// verdict about the property - the cases this worker owned after that point were not run
+			if err != nil && (strings.Contains(err.Error(), "exit status 4") || strings.Contains(err.Error(), "signal: killed")) {
+				results[i].deathMemory = true
+			}
 		}(i)
 	}
 	wg.Wait()
 
 	m := &Merged{States: map[string]struct{}{}, Outcomes: map[string]int64{}, Bounds: map[string]string{}, Selftests: map[string]string{}, Groups: map[string]int64{}}
 	for i, w := range results {
+		if w.res == nil && w.deathMemory {
+			m.Caps = appendUniq(m.Caps, fmt.Sprintf("a worker was stopped for memory (resident set above %d MiB, or killed by the system) in group %q: the cases it owned after that point were not run; this is not a verdict about the property", memCapMiB(), w.deathGroup))
+			m.Notes = appendUniq(m.Notes, "memory stop: "+firstLines(w.death, 3))
+			m.DeadlineHit = true
+			continue
+		}
 		if w.res == nil {
 			m.WorkerDeaths = append(m.WorkerDeaths, w.death)
 			m.deaths = append(m.deaths, deathInfo{w.death, w.deathGroup, w.deathIndex, w.deathHang})
@@ -396,6 +408,26 @@ func firstLines(s string, n int) string {
 // CaseDeadline is the absolute per-case deadline (cases take milliseconds).
 var CaseDeadline = 180 * time.Second
 
+func residentMiB() int64 {
+	b, err := os.ReadFile("/proc/self/statm")
+	if err != nil {
+		return 0
+	}
+	f := strings.Fields(string(b))
+	if len(f) < 2 {
+		return 0
+	}
+	pages, _ := strconv.ParseInt(f[1], 10, 64)
+	return pages * int64(os.Getpagesize()) >> 20
+}
+
+func memCapMiB() int64 {
+	if v, err := strconv.ParseInt(os.Getenv("MCVERIF_MEMCAP_MB"), 10, 64); err == nil && v > 0 {
+		return v
+	}
+	return 3072
+}
+
 // Worker runs one shard.
 func Worker(spec Spec, tier string, shard, n int, out, journal string) int {
 	bud := spec.QuickBud
@@ -420,6 +452,12 @@ func Worker(spec Spec, tier string, shard, n int, out, journal string) int {
 			if time.Since(since) > CaseDeadline {
 				fmt.Printf("HANG: no case completed for %s\n", CaseDeadline)
 				os.Exit(3)
+			}
+			// memory: a worker that keeps growing (code under test that retains every input, a harness leak) is stopped
+			// here, before the system's out-of-memory killer picks a victim of its own choosing
+			if rss := residentMiB(); rss > memCapMiB() {
+				fmt.Printf("MEMORY-CAP: resident set %d MiB above the cap of %d MiB\n", rss, memCapMiB())
+				os.Exit(4)
 			}
 		}
 	}()
